@@ -283,7 +283,12 @@ def round_level(ctx, binp, dev_sat, dev_rng):
         cat = forced + rest[:(420 if quick else 3000) - len(forced)]
     scenarios = [round_scenario(100 + i, rnd) for i, rnd in enumerate(cat)]
     by_id = {s["id"]: s for s in scenarios}
-    lines = cs.run_scenarios(ctx, scenarios, timeout=900)
+    try:
+        lines = cs.run_scenarios(ctx, scenarios, timeout=900)
+    except vlib.Inconclusive as e:
+        # hundreds of core processes are started: a port picked as free may be taken by the time the core binds it
+        ctx.log("whole-core simulation failed (%s); one more attempt" % str(e)[:160])
+        lines = cs.run_scenarios(ctx, scenarios, timeout=900)
     tlines, nrounds, incomplete = project_rounds(lines, by_id)
     if len(incomplete) > max(2, len(scenarios) // 20):
         raise vlib.Inconclusive("%d of %d OFFERS rounds were not answered in time by the core: %s" % (len(incomplete), len(scenarios), incomplete[:10]))
